@@ -710,7 +710,9 @@ func check(c Case) (out outcome, err error) {
 		lint.Options{ConfigHCL: strings.ReplaceAll(c.config(), urlMark, srv.URL), Enabled: []string{"promql/series"}},
 	)
 	out.Log = srv.Log()
-	srv.CloseClientConnections() // pint's per-run HTTP transport leaves idle connections behind (2 fds each, 90s)
+	if os.Getenv("C16_KEEP_IDLE_CONNS") == "" { // (set only to demonstrate the descriptor leak this line prevents)
+		srv.CloseClientConnections() // pint's per-run HTTP transport leaves idle connections behind (2 fds each, 90s)
+	}
 	if res.Panicked() {
 		return out, fmt.Errorf("pint panicked at %s: %v\n%s", res.PanicAt, res.Panic, res.Stack)
 	}
